@@ -71,6 +71,8 @@ pub fn run_stores(scs: &[Scenario]) -> bool {
         gate: std::sync::Mutex::new(None),
         read_state_in_callbacks: cbread,
         mw_dispatch: std::sync::Mutex::new(HashMap::new()),
+        cb_unsub: std::sync::Mutex::new(HashMap::new()),
+        unsub_fn: std::sync::Mutex::new(None),
     });
     for (k, rest) in &sc.extra {
         // mwd <middleware> <r|e|d> <action> <dispatched action>
@@ -92,6 +94,19 @@ pub fn run_stores(scs: &[Scenario]) -> bool {
     }
     SLOW_CLONE_NS.store(slow, Ordering::SeqCst);
     let env = Arc::new(Env::new(ctx.clone(), sc.clone()));
+    for (k, rest) in &sc.extra {
+        // cbun <subscriber> <action> <target>: inside its on_notify for <action> the (direct or
+        // channeled) subscriber calls unsubscribe() of <target> (possibly itself)
+        if k == "cbun" && rest.len() >= 3 {
+            if let (Ok(s0), Ok(a), Ok(t)) = (rest[0].parse::<u32>(), rest[1].parse(), rest[2].parse::<u32>()) {
+                ctx.cb_unsub.lock().unwrap().insert((s0, a), t);
+            }
+        }
+    }
+    {
+        let env2 = env.clone();
+        *ctx.unsub_fn.lock().unwrap() = Some(Arc::new(move |t: u32| env2.exec_op(&format!("un:{}", t), None)));
+    }
     let store = build_store(&ctx, sc);
     for d in &sc.init_subs {
         match d {
@@ -186,6 +201,7 @@ pub fn run_stores(scs: &[Scenario]) -> bool {
         println!("L {} {} {}", e.logical, e.thread, e.text);
     }
     env.cleanup();
+    *ctx.unsub_fn.lock().unwrap() = None;
     clean
 }
 
